@@ -83,6 +83,10 @@ def coq_case(c):
             ops.append("OHeal")
         elif t == "restart":
             ops.append("ORestart")
+        elif t == "hold":
+            ops.append("OHold")
+        elif t == "release":
+            ops.append("ORelease")
         elif t == "obs":
             ops.append("OObs")
         elif t == "sleep":
@@ -95,11 +99,25 @@ def coq_case(c):
     obs = []
     for ob in c["obs"]:
         calls = "[" + "; ".join("(%s, %s)" % (nl(k["objs"]), vlib.coq_bool(k["ok"])) for k in ob["calls"]) + "]"
-        obs.append("mkO %s %s %s %s %s %s %s %s" % (calls, N(ob["size"]), nl(ob["cmap"]), N(ob["csum"]),
-                                                  nl(ob["dir"]), N(ob["dsum"]), nl(ob["infl"]), nl(ob["blob"])))
-    return "mkC (mkP %s %d%%nat %s) %s %s [%s] [%s] %s" % (
-        N(c["thr"]), c["cnt"], N(c["msz"]), vlib.coq_bool(c["workers"] == 1), vlib.coq_bool(c["kind"] != "prop"),
+        obs.append("mkO %s %s %s %s %s %s %s %s %s %s" % (calls, N(ob["size"]), nl(ob["cmap"]), N(ob["csum"]),
+                                                        nl(ob["dir"]), N(ob["dsum"]), nl(ob["infl"]), nl(ob["blob"]),
+                                                        vlib.coq_bool(ob.get("held", False)),
+                                                        "[" + "; ".join(nl(b) for b in ob.get("pend", [])) + "]"))
+    return "mkC (mkP %s %d%%nat %s) %d%%nat %s %s [%s] [%s] %s" % (
+        N(c["thr"]), c["cnt"], N(c["msz"]), c["workers"], vlib.coq_bool(c["workers"] == 1), vlib.coq_bool(c["kind"] != "prop"),
         "; ".join(ops), "; ".join(obs), nl(must_set(c)))
+
+
+def rounds_in_flight(c):
+    """held observations that show a new batch or newly marked addresses on top of batches already held before:
+    a scheduler round has begun while a worker was holding a batch"""
+    n, prev = 0, None
+    for o in c["obs"]:
+        if o.get("held") and prev is not None and prev.get("held") and prev.get("pend"):
+            if len(o["infl"]) > len(prev["infl"]) or len(o["pend"]) > len(prev["pend"]):
+                n += 1
+        prev = o
+    return n
 
 
 def gen_consts(ctx, binp):
@@ -164,10 +182,12 @@ def run(ctx):
     ctx.cov.update({
         "evaluations": len(cases),
         "distinct_nontrivial": vlib.distinct_count([(strip(c), c["obs"]) for c in nontriv]),
-        "rule": "scripts from splitmix64(VERIF_SEED): kind sched (no failures, 1-4 workers, repeated puts, deletes, restart; "
-                "compared with the model per round), abort (1 worker, poisoned objects / failing storage during round 1, heal, "
-                "back-off; compared with the model), prop (1-4 workers, concurrent and repeated puts, random failures, heal; "
-                "reference only). non-trivial = at least 2 objects and at least one storage call; distinct by (script, params, observations)",
+        "rule": "scripts from splitmix64(VERIF_SEED): kind sched (no failures, 1-4 workers, repeated puts, deletes, restart; half of "
+                "them + 4 fixed ones with the main storage blocked for 2-3 ticks while objects arrive, so that rounds begin with "
+                "batches in flight, get stuck at the hand-over and meet a buffered tick; compared with the model per round and at "
+                "the blocked points), abort (1 worker, poisoned objects / failing storage during round 1, heal, "
+                "back-off; compared with the model), prop (1-4 workers, concurrent and repeated puts, random failures, blocked-storage "
+                "episodes, heal; reference only). non-trivial = at least 2 objects and at least one storage call; distinct by (script, params, observations)",
         "samples": [cases[0], cases[len(cases) // 2], cases[-1]] if cases else [],
         "traces_validated_against_impl": len([c for c in cases if c["kind"] != "prop"]),
         "hist_kind": hist([c["kind"] for c in cases]),
@@ -176,6 +196,11 @@ def run(ctx):
         "hist_storage_calls": hist([min(n, 12) for n in ncalls]),
         "hist_failed_calls": hist([min(n, 6) for n in nfail]),
         "hist_batch_sizes": hist([min(len(k["objs"]), 6) for c in cases for o in c["obs"] for k in o["calls"]]),
+        # schedules in which a scheduler round begins while a worker still holds a batch (blocked main storage)
+        "hist_hold_episodes": hist(["%s:%s" % (c["kind"], "hold" if any(o["t"] == "hold" for o in c["script"]) else "plain")
+                                    for c in cases]),
+        "observations_with_batches_in_flight": sum(1 for c in cases for o in c["obs"] if o.get("held") and o.get("pend")),
+        "rounds_begun_with_batches_in_flight": sum(rounds_in_flight(c) for c in cases),
         "cases_with_repeated_put": sum(1 for c in cases if len([o for o in c["script"] if o["t"] == "put"]) >
                                        len({o.get("o", 0) for o in c["script"] if o["t"] == "put"})),
         "consts": consts,
